@@ -53,6 +53,15 @@ theorem propagator_memo_keys_complete :
     ∀ s ∈ memoSites, ∀ v ∈ s.dependsOn, v ∈ s.keyVars := by
   decide
 
+/-- The derivative `P'` the chain rule receives for half step `h` of step `k` is the derivative of
+    the propagator AT the parameters of that half step (`parameters[2k+h]`): in both closures of
+    `get_propagator_derivatives` (user-supplied and numerically differentiated) every assignment
+    of the derivatives of half `h` uses row `h`, or copies the other half's derivatives only
+    under a test that ALL parameters of the two halves agree (regenerated statement by statement). -/
+theorem derivative_rows_match :
+    ∀ s ∈ derivSources, s.fromRow = s.half ∨ s.guard = "allEqual" := by
+  decide
+
 /-! ### (1) exact multilinearity: the adjoint identity, any number of environments -/
 
 /-- `adjoint_exact`, first half step.  For every number of steps `N`, every step `k < N`, every
